@@ -375,6 +375,32 @@ pub fn upgrade_while_queued(g: &mut G) -> Scenario {
     Scenario { actors: vec![a], clients: vec![c], probes: vec![], peer_slots: false, erase: None, expect: None }
 }
 
+/// C07: an ask_join whose caller gives up while the job that the handler spawned is still running, after which every
+/// strong handle is dropped. The handler has long returned and the job holds no reference: the actor must end at
+/// that instant, not when the job finishes.
+pub fn abandoned_ask_join(g: &mut G) -> Scenario {
+    let a = ActorSpec { cap: Some(g.pick(&[2usize, 4, 32])), ..Default::default() };
+    let delay = g.pick(&[10u64, 20, 50]);
+    let m = Msg { id: g.mid(), kind: MsgKind::Join { delay_ms: delay, out: g.pick(&[JobOut::Value, JobOut::Value, JobOut::Panic]) }, steps: vec![] };
+    let give_up = g.range(1, 5);
+    let victim = Op::AskJoin { h: 0, m };
+    let mut c = vec![match g.below(3) {
+        0 => Op::Cancel { op: Box::new(victim), polls: 0, ms: Some(give_up) },
+        1 => Op::Race(vec![victim, Op::Sleep(give_up)]),
+        _ => Op::Cancel { op: Box::new(victim), polls: g.range(2, 3) as u32, ms: None },
+    }];
+    if g.chance(500) {
+        c.push(Op::Downgrade { h: 0, to: 100 });
+    }
+    if g.chance(300) {
+        c.push(tell(0, g));
+    }
+    c.push(Op::Drop { h: 0 });
+    c.push(Op::Sleep(1));
+    c.push(Op::Upgrade { h: 100, to: 101 });
+    Scenario { actors: vec![a], clients: vec![c], probes: vec![], peer_slots: false, erase: None, expect: None }
+}
+
 /// C10: the natural completion time of the operation placed before / at / after / never relative to
 /// the deadline, with the mailbox free, full or closed and the actor possibly dying first.
 pub fn deadline_alignment(g: &mut G) -> Scenario {
